@@ -47,24 +47,9 @@ def diagnoseBody (prog : Program) (base M : DB) (β : Bindings) : List Lit → L
   | _, _ => some "children-count-differs"
 end
 
-def Atom.hasRepeatedVar (a : Atom) : Bool :=
-  let vs := a.args.filterMap (fun | .var x => some x | _ => none)
-  vs.length != vs.eraseDups.length
-
-/-- known defect families (KNOWN_FINDINGS classes), decided from the program and the rejected step:
-    * `neg_over_derived`: the rejected step is a negation leaf over a relation that has rules —
-      `prove_body` looks negated atoms up in base data only (prove_body.rs:86);
-    * `repeated_var_over_derived`: a child is not an instance of a positive body atom over a relation
-      with rules that repeats a variable — `enumerate_derived_candidates` checks only the concrete
-      positions of the pattern and lets the last occurrence of a repeated unbound variable win
-      (prove_body.rs:293-312). -/
-def classOf (prog : Program) (reason : String) : String :=
-  match reason.splitOn ":" with
-  | ["negation-leaf-has-match", rel] => if hasRules prog rel then "neg_over_derived" else "unclassified"
-  | ["child-not-body-instance", rel] =>
-    if hasRules prog rel && prog.any (fun r => r.body.any (fun | .pos a => a.rel == rel && Atom.hasRepeatedVar a | _ => false))
-    then "repeated_var_over_derived" else "unclassified"
-  | _ => "unclassified"
+/-- no defect family of C21 is known any more (`neg_over_derived` and `repeated_var_over_derived` are
+    fixed; their witnesses are replayed from corpus/C21): every rejected tree is a violation. -/
+def classOf (_prog : Program) (_reason : String) : String := "unclassified"
 
 def judge (r : WhyReq) (d : DB) (impl : String) : String × Bool :=
   match pmEval r.kg.rules r.kg.base with
